@@ -206,6 +206,21 @@ impl AcquisitionLedger {
         }
     }
 
+    /// Whether a cost reduction of `amount`, apportioned over the lots like
+    /// [`apply_cost_adjustment`](Self::apply_cost_adjustment) does it (by shares still held),
+    /// leaves every lot with non-negative allowable cost. A cheap lot can be handed more than
+    /// it cost even when the holding as a whole can absorb the amount.
+    pub fn can_absorb_cost_reduction(&self, amount: Decimal) -> bool {
+        let total_held: Decimal = self.lots.iter().map(|lot| lot.held_for_adjustment()).sum();
+        if total_held == Decimal::ZERO {
+            return true;
+        }
+        self.lots.iter().all(|lot| {
+            let held = lot.held_for_adjustment();
+            held <= Decimal::ZERO || amount * (held / total_held) <= lot.adjusted_cost()
+        })
+    }
+
     /// Total adjusted cost of the shares still held (each lot's cost in proportion to
     /// the part of it that has not been disposed of).
     pub fn total_adjusted_cost(&self) -> Decimal {
